@@ -73,6 +73,9 @@ func apiDesc() gen.Desc {
 				{Name: "arr", In: "query", Type: "array", ItemsType: "string", CollectionFormat: "csv"}}},
 			{ID: "delA", Method: "DELETE", Template: "/a/{id}", Params: []gen.Param{pathP("id")}, Security: []gen.SecReq{{"tok": {}}}},
 			{ID: "getB", Method: "GET", Template: "/b/{x}", Params: []gen.Param{pathP("x"), str("q", "query")}, Security: []gen.SecReq{{"key": {}}, {}}},
+			// admitted only through a wildcard consumes entry: the consumer comes from the API-wide registrations
+			{ID: "postW", Method: "POST", Template: "/w/{id}", Params: []gen.Param{pathP("id"), {Name: "body", In: "body", Required: true}},
+				Consumes: []string{"text/*"}},
 		},
 	}
 	return d
@@ -119,6 +122,12 @@ func buildServer() (*server, error) {
 		atomic.AddInt64(&s.consumed, 1)
 		return rt.JSONConsumer().Consume(r, v)
 	}))
+	for _, mt := range []string{"text/plain", "text/x-a", "text/x-b", "text/x-c"} {
+		api.RegisterConsumer(mt, rt.ConsumerFunc(func(r io.Reader, v interface{}) error {
+			atomic.AddInt64(&s.consumed, 1)
+			return rt.JSONConsumer().Consume(r, v)
+		}))
+	}
 	api.RegisterProducer("application/json", rt.ProducerFunc(func(w io.Writer, v interface{}) error {
 		b, err := json.Marshal(map[string]interface{}{"tag": "json", "v": v})
 		if err != nil {
@@ -227,7 +236,7 @@ type reqSpec struct {
 }
 
 func mkRequest(r *rand.Rand, token string) *reqSpec {
-	ops := []string{"getA", "postA", "putB", "delA", "getB"}
+	ops := []string{"getA", "postA", "putB", "delA", "getB", "postW"}
 	op := ops[r.Intn(len(ops))]
 	acc := []string{"application/json", "text/plain"}[r.Intn(2)]
 	rs := &reqSpec{op: op, token: token, accept: acc, expect: map[string]string{}}
@@ -250,6 +259,12 @@ func mkRequest(r *rand.Rand, token string) *reqSpec {
 		req = httptest.NewRequest("POST", "/api/a/"+url.PathEscape(v("id"))+"?tok="+url.QueryEscape(v("tk")), strings.NewReader(body))
 		req.Header.Set("Content-Type", "application/json")
 		req.Header.Set("X-Key", v("k"))
+		rs.expect["id"] = v("id")
+		rs.expBody = token
+	case "postW":
+		body := fmt.Sprintf(`{"t":%q}`, token)
+		req = httptest.NewRequest("POST", "/api/w/"+url.PathEscape(v("id")), strings.NewReader(body))
+		req.Header.Set("Content-Type", []string{"text/plain", "text/x-a", "text/x-b", "text/x-c"}[r.Intn(4)])
 		rs.expect["id"] = v("id")
 		rs.expBody = token
 	case "putB":
@@ -603,8 +618,16 @@ func runSequence(m *mon.M, s *server, sc *SeqCase, cfg *RunCfg) {
 		case "F":
 			stepErr, _ = mon.Catch(func() {
 				offers := []string{"application/json", "text/plain"}
-				if i%2 == 1 {
+				switch {
+				case i%3 == 1:
 					offers = []string{"text/plain", "application/json"} // a later asker may offer differently: the memo wins
+				case i%3 == 2 && fmtMemo:
+					// ... even when it does not offer the negotiated format at all
+					if memoFmt == "application/json" {
+						offers = []string{"text/plain"}
+					} else {
+						offers = []string{"application/json"}
+					}
 				}
 				f, r2 := s.ctx.ResponseFormat(cur, offers)
 				if fmtMemo && f != memoFmt {
